@@ -476,12 +476,12 @@ def gen_job(rng, name, container, enc, ch, caller, scale, shape, part, valmode):
 
 def gen_subnormal_jobs(rng, k0):
     """channel maxima whose binary32 has exponent field 0 (the class of the repaired KF-C18-PEAK-SUBNORMAL), always present whatever
-    the seed: every container x both encodings; FLOAT files: 2^-149, 2^-148, 2^-127, the largest subnormal, seeded subnormals, through
+    the seed: every container x both encodings; FLOAT files: 2^-149, 2^-148, 2^-127, the largest subnormal, FLT_MIN (the boundary), seeded subnormals, through
     the float and the double caller; DOUBLE files additionally maxima that are no binary32 (ties and near-ties between two subnormals,
     the value just below FLT_MIN that rounds up to it, 2^-150 / 2^-151 that round to 0)."""
     jobs = []
     k = k0
-    fixed32 = [1, 2, 3, 0x00400000, 0x007FFFFF, 0x00000100, 0x00012345]
+    fixed32 = [1, 2, 3, 0x00400000, 0x007FFFFF, 0x00800000, 0x00000100, 0x00012345, 0x00800001]      # ... FLT_MIN and its successor: the boundary of the class
     for container in CONTAINERS:
         for enc in ("f32", "f64"):
             for variant in range(2):
